@@ -118,6 +118,8 @@ uint64_t transcript_hash (const std::vector<Rec> &t)
 
 // ------------------------------------------------------------------------------------------
 
+#define GUARD(t, r) os.jmp_armed = true ; if (setjmp (os.jb) != 0) { budget_fail (t, r) ; return ; }
+
 namespace {
 
 struct StoreModel
@@ -132,6 +134,7 @@ struct StoreModel
 	std::vector<uint64_t> val ;	// per item
 	std::vector<uint8_t> known ;
 	bool corrupted = false ;
+	int64_t dataoffset = 0 ;
 } ;
 
 struct Task
@@ -181,6 +184,18 @@ struct Exec
 		t.stop = true ;
 	}
 	void probe (const char *name, uint64_t n = 1) { res.probes [name] += n ; }
+
+	// the library call did not return within its simulated I/O step budget: the handle is abandoned
+	void budget_fail (Task &t, Rec &r)
+	{	os.in_lib = false ; os.op_budget = 0 ; os.jmp_armed = false ;
+		r.ret = -999 ; r.err = -1 ;
+		std::string api = os.cur_api ;
+		t.stop = false ;
+		viol (t, "budget", api, "call did not return within its simulated I/O step budget (" + api + ")") ;
+		t.sf = nullptr ; t.vio = nullptr ; t.fd = -1 ; t.stop = true ;
+		res.budget_hit = true ;
+		res.api_calls ++ ;
+	}
 
 	Digest digest (Task &t)
 	{	Digest d ;
@@ -234,7 +249,7 @@ struct Exec
 		std::string fname = op.gets ("fmt", cfg.gets ("fmt", "WAV/PCM_16/FILE")) ;
 		const Fmt *f = find_format_name (fname) ;
 		if (!f) { r.skipped = true ; return ; }
-		if (needs_path_route (*f) && route != "path") route = "path" ;
+		if (needs_path_route (*f) && route != "path" && !op.geti ("force_route", 0)) route = "path" ;
 		t.fmt = f ; t.route = route ;
 		t.store = op.gets ("file", t.store.empty () ? "f" + std::to_string (t.id) + ".dat" : t.store) ;
 		t.ch = (int) op.geti ("ch", cfg.geti ("ch", 1)) ;
@@ -261,6 +276,7 @@ struct Exec
 		int64_t bud = budget_for (t, 0) ;
 		r.api = "open:" + route + ":" + mode ;
 		os.begin_op (t.id, (int) t.pc, "sf_open", bud) ;
+		GUARD (t, r) ;
 		if (route == "vio")
 		{	t.vio = new SimVio ; t.vio->f = file ; t.vio->off = 0 ;
 			SF_VIRTUAL_IO v = simos_vio () ;
@@ -269,6 +285,17 @@ struct Exec
 		else if (route == "path")
 		{	std::string p = "/sim/cwd/" + t.store ;
 			t.sf = sf_open (p.c_str (), t.mode, &t.info) ;
+		}
+		else if (route == "fifo")
+		{	// non-seekable pipe preloaded with the store's bytes, delivered under a seeded chunking schedule
+			os.in_lib = false ;
+			SimFileP pf = os.file ("/sim/cwd/" + t.store + ".fifo", true) ;
+			pf->is_fifo = true ; pf->data = file->data ; pf->fifo_pos = 0 ; pf->fifo_k = 0 ; pf->fifo_chunks.clear () ;
+			const J &cj = op.at ("chunks") ; for (size_t k = 0 ; k < cj.size () ; k++) pf->fifo_chunks.push_back ((int) cj [k].num ()) ;
+			t.fd = os.open_fd (pf, t.mode == SFM_READ ? O_RDONLY : O_WRONLY, false) ;
+			t.close_desc = true ;
+			os.in_lib = true ;
+			t.sf = sf_open_fd (t.fd, t.mode, &t.info, 1) ;
 		}
 		else	// fd, fdnc
 		{	os.in_lib = false ;
@@ -388,7 +415,9 @@ struct Exec
 	void do_close (Task &t, Rec &r)
 	{	if (!t.sf) { r.skipped = true ; return ; }
 		r.api = "close" ;
+		{ Digest dd = digest (t) ; if (dd.ok && t.mode != SFM_READ) sm [t.store].dataoffset = dd.v [DG_DATAOFFSET] ; }
 		os.begin_op (t.id, (int) t.pc, "sf_close", budget_for (t, 0)) ;
+		GUARD (t, r) ;
 		int rc = sf_close (t.sf) ;
 		t.sf = nullptr ;
 		r.ret = rc ; r.err = 0 ;
@@ -461,6 +490,7 @@ struct Exec
 		memset (buf, 0xA5, bytes > 0 ? (size_t) bytes : 1) ;
 		r.api = std::string (T == T_RAW ? "read_raw" : fr ? "readf_" : "read_") + (T == T_RAW ? "" : stype_name (T)) ;
 		os.begin_op (t.id, (int) t.pc, "sf_read", budget_for (t, bytes)) ;
+		GUARD (t, r) ;
 		sf_count_t got = 0 ;
 		switch (T)
 		{	case T_SHORT : got = fr ? sf_readf_short (t.sf, (short *) buf, n) : sf_read_short (t.sf, (short *) buf, asked) ; break ;
@@ -472,6 +502,10 @@ struct Exec
 		r.ret = got ; r.err = sf_error (t.sf) ;
 		int64_t gitems = T == T_RAW ? got : (fr ? got * ch : got) ;
 		if (got > 0 && got <= asked) r.dh = fnv1a (buf, (size_t) (T == T_RAW ? got : gitems * stype_size (T))) ;
+		if (op.geti ("keep", 0) && got > 0 && got <= asked && T != T_RAW)
+		{	std::vector<uint64_t> &kv = res.kept [t.id] ;
+			for (int64_t k = 0 ; k < gitems ; k++) kv.push_back (item_bits (buf, T, k)) ;
+		}
 		after_call (t, r) ;
 		Digest d1 = digest (t) ;
 		char b [256] ;
@@ -481,7 +515,9 @@ struct Exec
 			if (got < 0 || got > asked)
 			{	snprintf (b, sizeof (b), "returned %lld for request %lld", (long long) got, (long long) asked) ; viol (t, "read.range", got < 0 ? "negative" : "gt_requested", b) ; break ; }
 			if (got % unit)
-			{	snprintf (b, sizeof (b), "returned %lld items, not a whole number of %d-channel frames", (long long) got, ch) ; viol (t, "read.whole_frames", "-", b) ; break ; }
+			{	if (t.faulted || sm [t.store].corrupted) probe ("partial_frame_after_fault") ;
+				else { snprintf (b, sizeof (b), "returned %lld items, not a whole number of %d-channel frames", (long long) got, ch) ; viol (t, "read.whole_frames", "-", b) ; break ; }
+			}
 			int64_t gframes = got / unit ;
 			if (d0.ok && d1.ok && d1.v [DG_READ_CURRENT] - d0.v [DG_READ_CURRENT] != gframes && !wrong_mode)
 			{	snprintf (b, sizeof (b), "read position moved by %lld, call returned %lld frames", (long long) (d1.v [DG_READ_CURRENT] - d0.v [DG_READ_CURRENT]), (long long) gframes) ;
@@ -585,6 +621,7 @@ struct Exec
 		uint64_t h0 = fnv1a (buf, (size_t) bytes) ;
 		r.api = std::string (T == T_RAW ? "write_raw" : fr ? "writef_" : "write_") + (T == T_RAW ? "" : stype_name (T)) ;
 		os.begin_op (t.id, (int) t.pc, "sf_write", budget_for (t, bytes)) ;
+		GUARD (t, r) ;
 		sf_count_t put = 0 ;
 		switch (T)
 		{	case T_SHORT : put = fr ? sf_writef_short (t.sf, (short *) buf, n) : sf_write_short (t.sf, (short *) buf, asked) ; break ;
@@ -654,6 +691,7 @@ struct Exec
 		int flag = (int) op.geti ("flag", 0) ;
 		r.api = "seek" ;
 		os.begin_op (t.id, (int) t.pc, "sf_seek", budget_for (t, 0)) ;
+		GUARD (t, r) ;
 		sf_count_t got = sf_seek (t.sf, off, whence | flag) ;
 		r.ret = got ; r.err = sf_error (t.sf) ; r.dh = (uint64_t) off * 31 + whence + flag * 7 ;
 		after_call (t, r) ;
@@ -726,6 +764,7 @@ struct Exec
 		int64_t arg = op.geti ("arg", 0) ;
 		r.api = "cmd:" + id ;
 		os.begin_op (t.id, (int) t.pc, "sf_command", budget_for (t, 0)) ;
+		GUARD (t, r) ;
 		int rc = 0 ;
 		if (id == "update_header") rc = sf_command (t.sf, SFC_UPDATE_HEADER_NOW, nullptr, 0) ;
 		else if (id == "auto_header") rc = sf_command (t.sf, SFC_SET_UPDATE_HEADER_AUTO, nullptr, arg ? SF_TRUE : SF_FALSE) ;
@@ -753,6 +792,553 @@ struct Exec
 		else os.clock_off += op.geti ("jump", 0) ;
 	}
 
+	// ------------------------------------------------------------------------------------------
+	// metadata, chunks, generic commands, corruption, crash images
+
+	std::string gen_text (int64_t stream, int64_t len, const std::string &cls)
+	{	std::string s ;
+		for (int64_t k = 0 ; (int64_t) s.size () < len ; k++)
+		{	uint64_t h = mix3 (key ^ 0x7e47, (uint64_t) stream, (uint64_t) k) ;
+			if (cls == "utf8" && (h & 7) == 0 && (int64_t) s.size () + 2 <= len) { s += (char) (0xc3) ; s += (char) (0x80 + (h >> 8) % 0x3f) ; }
+			else if (cls == "crlf" && (h & 15) == 0) s += ((h >> 8) & 1) ? '\n' : '\r' ;
+			else s += (char) (0x21 + (h >> 16) % 0x5e) ;
+		}
+		if ((int64_t) s.size () > len) s.resize ((size_t) len) ;
+		return s ;
+	}
+
+	void obs (Task &t, const char *kind, const J &val)
+	{	J o = J::obj () ; o ["task"] = t.id ; o ["op"] = (long long) t.pc ; o ["kind"] = kind ; o ["v"] = val ;
+		res.obs.push_back (o) ;
+	}
+
+	static std::string hexs (const void *p, size_t n)
+	{	static const char *d = "0123456789abcdef" ; std::string s ; const unsigned char *u = (const unsigned char *) p ;
+		for (size_t k = 0 ; k < n ; k++) { s += d [u [k] >> 4] ; s += d [u [k] & 15] ; }
+		return s ;
+	}
+
+	void op_setstr (Task &t, const J &op, Rec &r)
+	{	if (!t.sf) { r.skipped = true ; return ; }
+		int type = (int) op.geti ("type", SF_STR_TITLE) ;
+		std::string txt = op.has ("text") ? op.gets ("text") : gen_text (op.geti ("stream", type), op.geti ("len", 8), op.gets ("cls", "ascii")) ;
+		r.api = "set_string" ;
+		os.begin_op (t.id, (int) t.pc, "sf_set_string", budget_for (t, 0)) ;
+		GUARD (t, r) ;
+		int rc = op.geti ("null", 0) ? sf_set_string (t.sf, type, nullptr) : sf_set_string (t.sf, type, txt.c_str ()) ;
+		r.ret = rc ; r.err = sf_error (t.sf) ; r.dh = fnv1a (txt.data (), txt.size ()) + type ;
+		after_call (t, r) ;
+		J v = J::obj () ; v ["type"] = type ; v ["text"] = txt ; v ["rc"] = rc ; v ["late"] = t.wr > 0 ? 1 : 0 ;
+		obs (t, "setstr", v) ;
+	}
+
+	void op_getstr (Task &t, const J &op, Rec &r)
+	{	if (!t.sf) { r.skipped = true ; return ; }
+		r.api = "get_string" ;
+		J all = J::obj () ;
+		uint64_t h = 0 ;
+		os.begin_op (t.id, (int) t.pc, "sf_get_string", budget_for (t, 0)) ;
+		GUARD (t, r) ;
+		static const int types [] = { SF_STR_TITLE, SF_STR_COPYRIGHT, SF_STR_SOFTWARE, SF_STR_ARTIST, SF_STR_COMMENT, SF_STR_DATE, SF_STR_ALBUM, SF_STR_LICENSE, SF_STR_TRACKNUMBER, SF_STR_GENRE, 0, 0x11, 99 } ;
+		for (int ty : types)
+		{	if (op.has ("type") && op.geti ("type") != ty) continue ;
+			const char *s = sf_get_string (t.sf, ty) ;
+			if (s) { all [std::to_string (ty)] = std::string (s) ; h = fnv1a (s, strlen (s), h ^ (uint64_t) ty) ; }
+		}
+		r.ret = (int64_t) all.size () ; r.err = sf_error (t.sf) ; r.dh = h ;
+		after_call (t, r) ;
+		obs (t, "getstr", all) ;
+	}
+
+	typedef SF_BROADCAST_INFO_VAR (20000) BEXT_BIG ;
+	typedef SF_CART_INFO_VAR (20000) CART_BIG ;
+
+	void fill_field (char *dst, size_t width, int64_t stream, int fill)	// fill: 0 empty, 1 half, 2 full width (no NUL)
+	{	memset (dst, 0, width) ;
+		size_t n = fill == 0 ? 0 : fill == 1 ? width / 2 : width ;
+		std::string s = gen_text (stream, (int64_t) n, "ascii") ;
+		memcpy (dst, s.data (), s.size ()) ;
+	}
+
+	void op_setbext (Task &t, const J &op, Rec &r)
+	{	if (!t.sf) { r.skipped = true ; return ; }
+		BEXT_BIG *b = (BEXT_BIG *) calloc (1, sizeof (BEXT_BIG)) ;
+		int fill = (int) op.geti ("fill", 1) ; int64_t st = op.geti ("stream", 1) ;
+		fill_field (b->description, sizeof (b->description), st + 1, fill) ;
+		fill_field (b->originator, sizeof (b->originator), st + 2, fill) ;
+		fill_field (b->originator_reference, sizeof (b->originator_reference), st + 3, fill) ;
+		fill_field (b->origination_date, sizeof (b->origination_date), st + 4, fill) ;
+		fill_field (b->origination_time, sizeof (b->origination_time), st + 5, fill) ;
+		fill_field (b->umid, sizeof (b->umid), st + 6, fill) ;
+		b->time_reference_low = (uint32_t) mix3 (key, st, 7) ; b->time_reference_high = (uint32_t) mix3 (key, st, 8) ;
+		b->version = (short) op.geti ("version", 1) ;
+		b->loudness_value = (int16_t) mix3 (key, st, 9) ; b->loudness_range = (int16_t) mix3 (key, st, 10) ;
+		b->max_true_peak_level = (int16_t) mix3 (key, st, 11) ; b->max_momentary_loudness = (int16_t) mix3 (key, st, 12) ; b->max_shortterm_loudness = (int16_t) mix3 (key, st, 13) ;
+		int64_t hl = op.geti ("hist", 0) ; if (hl > 19000) hl = 19000 ; if (hl < 0) hl = 0 ;
+		std::string hist = gen_text (st + 20, hl, op.gets ("cls", "ascii")) ;
+		memcpy (b->coding_history, hist.data (), hist.size ()) ;
+		b->coding_history_size = (uint32_t) hist.size () ;
+		size_t sz = offsetof (BEXT_BIG, coding_history) + hist.size () ;
+		if (op.has ("datasize")) sz = (size_t) op.geti ("datasize") ;
+		// exact-size copy so that any access beyond datasize is an ASan report
+		void *ex = malloc (sz ? sz : 1) ; memcpy (ex, b, sz < sizeof (BEXT_BIG) ? sz : sizeof (BEXT_BIG)) ;
+		r.api = "cmd:SET_BROADCAST_INFO" ;
+		os.begin_op (t.id, (int) t.pc, "sf_command", budget_for (t, 0)) ;
+		GUARD (t, r) ;
+		int rc = sf_command (t.sf, SFC_SET_BROADCAST_INFO, ex, (int) sz) ;
+		r.ret = rc ; r.err = sf_error (t.sf) ; r.dh = fnv1a (ex, sz) ;
+		after_call (t, r) ;
+		J v = J::obj () ; v ["rc"] = rc ; v ["hex"] = hexs (b, offsetof (BEXT_BIG, coding_history)) ; v ["hist"] = hist ; v ["late"] = t.wr > 0 ? 1 : 0 ;
+		obs (t, "setbext", v) ;
+		free (ex) ; free (b) ;
+	}
+
+	void op_getbext (Task &t, const J &, Rec &r)
+	{	if (!t.sf) { r.skipped = true ; return ; }
+		BEXT_BIG *b = (BEXT_BIG *) calloc (1, sizeof (BEXT_BIG)) ;
+		r.api = "cmd:GET_BROADCAST_INFO" ;
+		os.begin_op (t.id, (int) t.pc, "sf_command", budget_for (t, 0)) ;
+		GUARD (t, r) ;
+		int rc = sf_command (t.sf, SFC_GET_BROADCAST_INFO, b, sizeof (BEXT_BIG)) ;
+		r.ret = rc ; r.err = sf_error (t.sf) ;
+		after_call (t, r) ;
+		J v = J::obj () ; v ["rc"] = rc ;
+		if (rc)
+		{	uint32_t hs = b->coding_history_size ; if (hs > 20000) hs = 20000 ;
+			v ["hex"] = hexs (b, offsetof (BEXT_BIG, coding_history)) ; v ["hist"] = std::string (b->coding_history, hs) ;
+			r.dh = fnv1a (b, offsetof (BEXT_BIG, coding_history) + hs) ;
+		}
+		obs (t, "getbext", v) ;
+		free (b) ;
+	}
+
+	void op_setcart (Task &t, const J &op, Rec &r)
+	{	if (!t.sf) { r.skipped = true ; return ; }
+		CART_BIG *c = (CART_BIG *) calloc (1, sizeof (CART_BIG)) ;
+		int fill = (int) op.geti ("fill", 1) ; int64_t st = op.geti ("stream", 1) ;
+		memcpy (c->version, "0101", 4) ;
+		fill_field (c->title, sizeof (c->title), st + 1, fill) ; fill_field (c->artist, sizeof (c->artist), st + 2, fill) ;
+		fill_field (c->cut_id, sizeof (c->cut_id), st + 3, fill) ; fill_field (c->client_id, sizeof (c->client_id), st + 4, fill) ;
+		fill_field (c->category, sizeof (c->category), st + 5, fill) ; fill_field (c->classification, sizeof (c->classification), st + 6, fill) ;
+		fill_field (c->out_cue, sizeof (c->out_cue), st + 7, fill) ; fill_field (c->start_date, sizeof (c->start_date), st + 8, fill) ;
+		fill_field (c->start_time, sizeof (c->start_time), st + 9, fill) ; fill_field (c->end_date, sizeof (c->end_date), st + 10, fill) ;
+		fill_field (c->end_time, sizeof (c->end_time), st + 11, fill) ; fill_field (c->producer_app_id, sizeof (c->producer_app_id), st + 12, fill) ;
+		fill_field (c->producer_app_version, sizeof (c->producer_app_version), st + 13, fill) ; fill_field (c->user_def, sizeof (c->user_def), st + 14, fill) ;
+		fill_field (c->url, sizeof (c->url), st + 15, fill) ;
+		c->level_reference = (int32_t) mix3 (key, st, 16) ;
+		for (int k = 0 ; k < 8 ; k++) { memcpy (c->post_timers [k].usage, "MRK ", 4) ; c->post_timers [k].value = (int32_t) mix3 (key, st, 30 + k) ; }
+		int64_t tl = op.geti ("tag", 0) ; if (tl > 19000) tl = 19000 ; if (tl < 0) tl = 0 ;
+		std::string tag = gen_text (st + 40, tl, op.gets ("cls", "ascii")) ;
+		memcpy (c->tag_text, tag.data (), tag.size ()) ;
+		c->tag_text_size = (uint32_t) tag.size () ;
+		size_t sz = offsetof (CART_BIG, tag_text) + tag.size () ;
+		if (op.has ("datasize")) sz = (size_t) op.geti ("datasize") ;
+		void *ex = malloc (sz ? sz : 1) ; memcpy (ex, c, sz < sizeof (CART_BIG) ? sz : sizeof (CART_BIG)) ;
+		r.api = "cmd:SET_CART_INFO" ;
+		os.begin_op (t.id, (int) t.pc, "sf_command", budget_for (t, 0)) ;
+		GUARD (t, r) ;
+		int rc = sf_command (t.sf, SFC_SET_CART_INFO, ex, (int) sz) ;
+		r.ret = rc ; r.err = sf_error (t.sf) ; r.dh = fnv1a (ex, sz) ;
+		after_call (t, r) ;
+		J v = J::obj () ; v ["rc"] = rc ; v ["hex"] = hexs (c, offsetof (CART_BIG, tag_text)) ; v ["tag"] = tag ; v ["late"] = t.wr > 0 ? 1 : 0 ;
+		obs (t, "setcart", v) ;
+		free (ex) ; free (c) ;
+	}
+
+	void op_getcart (Task &t, const J &, Rec &r)
+	{	if (!t.sf) { r.skipped = true ; return ; }
+		CART_BIG *c = (CART_BIG *) calloc (1, sizeof (CART_BIG)) ;
+		r.api = "cmd:GET_CART_INFO" ;
+		os.begin_op (t.id, (int) t.pc, "sf_command", budget_for (t, 0)) ;
+		GUARD (t, r) ;
+		int rc = sf_command (t.sf, SFC_GET_CART_INFO, c, sizeof (CART_BIG)) ;
+		r.ret = rc ; r.err = sf_error (t.sf) ;
+		after_call (t, r) ;
+		J v = J::obj () ; v ["rc"] = rc ;
+		if (rc)
+		{	uint32_t ts = c->tag_text_size ; if (ts > 20000) ts = 20000 ;
+			v ["hex"] = hexs (c, offsetof (CART_BIG, tag_text)) ; v ["tag"] = std::string (c->tag_text, ts) ;
+			r.dh = fnv1a (c, offsetof (CART_BIG, tag_text) + ts) ;
+		}
+		obs (t, "getcart", v) ;
+		free (c) ;
+	}
+
+	void op_setcues (Task &t, const J &op, Rec &r)
+	{	if (!t.sf) { r.skipped = true ; return ; }
+		int64_t n = op.geti ("count", 3) ; if (n < 0) n = 0 ; if (n > 100) n = 100 ;
+		size_t sz = sizeof (uint32_t) + (size_t) n * sizeof (SF_CUE_POINT) ;
+		uint8_t *raw = (uint8_t *) calloc (1, sz ? sz : 4) ;
+		SF_CUES *c = (SF_CUES *) raw ;
+		c->cue_count = (uint32_t) n ;
+		J pts = J::arr () ;
+		int64_t st = op.geti ("stream", 1) ;
+		for (int64_t k = 0 ; k < n ; k++)
+		{	SF_CUE_POINT *p = (SF_CUE_POINT *) (raw + sizeof (uint32_t) + k * sizeof (SF_CUE_POINT)) ;
+			p->indx = (int32_t) (k + 1) ; p->position = (uint32_t) (mix3 (key, st, k) % 100000) ; p->fcc_chunk = 0x61746164 ; p->chunk_start = 0 ; p->block_start = 0 ;
+			p->sample_offset = (uint32_t) (mix3 (key, st, 1000 + k) % 100000) ;
+			std::string nm = gen_text (st + 2000 + k, (int64_t) (mix3 (key, st, 3000 + k) % 40), "ascii") ;
+			memcpy (p->name, nm.data (), nm.size ()) ;
+			J pj = J::obj () ; pj ["indx"] = p->indx ; pj ["position"] = (long long) p->position ; pj ["sample_offset"] = (long long) p->sample_offset ; pj ["name"] = nm ; pts.push (pj) ;
+		}
+		r.api = "cmd:SET_CUE" ;
+		os.begin_op (t.id, (int) t.pc, "sf_command", budget_for (t, 0)) ;
+		GUARD (t, r) ;
+		int rc = sf_command (t.sf, SFC_SET_CUE, raw, (int) sz) ;
+		r.ret = rc ; r.err = sf_error (t.sf) ; r.dh = fnv1a (raw, sz) ;
+		after_call (t, r) ;
+		J v = J::obj () ; v ["rc"] = rc ; v ["cues"] = pts ; v ["late"] = t.wr > 0 ? 1 : 0 ;
+		obs (t, "setcues", v) ;
+		free (raw) ;
+	}
+
+	void op_getcues (Task &t, const J &, Rec &r)
+	{	if (!t.sf) { r.skipped = true ; return ; }
+		r.api = "cmd:GET_CUE" ;
+		os.begin_op (t.id, (int) t.pc, "sf_command", budget_for (t, 0)) ;
+		GUARD (t, r) ;
+		uint32_t cnt = 0 ;
+		int rc0 = sf_command (t.sf, SFC_GET_CUE_COUNT, &cnt, sizeof (cnt)) ;
+		J v = J::obj () ; v ["rc_count"] = rc0 ; v ["count"] = (long long) cnt ;
+		J pts = J::arr () ;
+		int rc = 0 ;
+		if (rc0 && cnt <= 100000)
+		{	size_t sz = sizeof (uint32_t) + (size_t) cnt * sizeof (SF_CUE_POINT) ;
+			uint8_t *raw = (uint8_t *) calloc (1, sz) ;
+			rc = sf_command (t.sf, SFC_GET_CUE, raw, (int) sz) ;
+			uint32_t got = ((SF_CUES *) raw)->cue_count ; if (got > cnt) got = cnt ;
+			for (uint32_t k = 0 ; rc && k < got ; k++)
+			{	SF_CUE_POINT *p = (SF_CUE_POINT *) (raw + sizeof (uint32_t) + k * sizeof (SF_CUE_POINT)) ;
+				J pj = J::obj () ; pj ["indx"] = p->indx ; pj ["position"] = (long long) p->position ; pj ["sample_offset"] = (long long) p->sample_offset ;
+				pj ["name"] = std::string (p->name, strnlen (p->name, sizeof (p->name))) ; pts.push (pj) ;
+			}
+			r.dh = fnv1a (raw, sz) ;
+			free (raw) ;
+		}
+		r.ret = rc ; r.err = sf_error (t.sf) ;
+		after_call (t, r) ;
+		v ["rc"] = rc ; v ["cues"] = pts ;
+		obs (t, "getcues", v) ;
+	}
+
+	static J instr_to_json (const SF_INSTRUMENT &i)
+	{	J v = J::obj () ;
+		v ["gain"] = i.gain ; v ["basenote"] = (int) i.basenote ; v ["detune"] = (int) i.detune ; v ["velocity_lo"] = (int) i.velocity_lo ; v ["velocity_hi"] = (int) i.velocity_hi ;
+		v ["key_lo"] = (int) i.key_lo ; v ["key_hi"] = (int) i.key_hi ; v ["loop_count"] = i.loop_count ;
+		J l = J::arr () ;
+		for (int k = 0 ; k < i.loop_count && k < 16 ; k++) { J x = J::obj () ; x ["mode"] = i.loops [k].mode ; x ["start"] = (long long) i.loops [k].start ; x ["end"] = (long long) i.loops [k].end ; x ["count"] = (long long) i.loops [k].count ; l.push (x) ; }
+		v ["loops"] = l ;
+		return v ;
+	}
+
+	void op_setinstr (Task &t, const J &op, Rec &r)
+	{	if (!t.sf) { r.skipped = true ; return ; }
+		SF_INSTRUMENT i ; memset (&i, 0, sizeof (i)) ;
+		int64_t st = op.geti ("stream", 1) ;
+		i.gain = (int) (mix3 (key, st, 1) % 12) ; i.basenote = (char) (mix3 (key, st, 2) % 128) ; i.detune = (char) (mix3 (key, st, 3) % 100) - 50 ;
+		i.velocity_lo = (char) (mix3 (key, st, 4) % 64) ; i.velocity_hi = (char) (64 + mix3 (key, st, 5) % 64) ; i.key_lo = (char) (mix3 (key, st, 6) % 64) ; i.key_hi = (char) (64 + mix3 (key, st, 7) % 64) ;
+		int64_t nl = op.geti ("loops", 1) ; if (nl < 0) nl = 0 ; if (nl > 16) nl = 16 ;
+		i.loop_count = (int) nl ;
+		for (int k = 0 ; k < nl ; k++)
+		{	static const int modes [] = { SF_LOOP_FORWARD, SF_LOOP_BACKWARD, SF_LOOP_ALTERNATING, SF_LOOP_NONE } ;
+			i.loops [k].mode = modes [mix3 (key, st, 10 + k) % 3] ; i.loops [k].start = (uint32_t) (mix3 (key, st, 30 + k) % 50000) ;
+			i.loops [k].end = i.loops [k].start + 1 + (uint32_t) (mix3 (key, st, 50 + k) % 50000) ; i.loops [k].count = (uint32_t) (mix3 (key, st, 70 + k) % 100) ;
+		}
+		void *ex = malloc (sizeof (i)) ; memcpy (ex, &i, sizeof (i)) ;
+		r.api = "cmd:SET_INSTRUMENT" ;
+		os.begin_op (t.id, (int) t.pc, "sf_command", budget_for (t, 0)) ;
+		GUARD (t, r) ;
+		int rc = sf_command (t.sf, SFC_SET_INSTRUMENT, ex, sizeof (i)) ;
+		r.ret = rc ; r.err = sf_error (t.sf) ; r.dh = fnv1a (&i, sizeof (i)) ;
+		after_call (t, r) ;
+		J v = instr_to_json (i) ; v ["rc"] = rc ; v ["late"] = t.wr > 0 ? 1 : 0 ;
+		obs (t, "setinstr", v) ;
+		free (ex) ;
+	}
+
+	void op_getinstr (Task &t, const J &, Rec &r)
+	{	if (!t.sf) { r.skipped = true ; return ; }
+		SF_INSTRUMENT *i = (SF_INSTRUMENT *) calloc (1, sizeof (SF_INSTRUMENT)) ;
+		r.api = "cmd:GET_INSTRUMENT" ;
+		os.begin_op (t.id, (int) t.pc, "sf_command", budget_for (t, 0)) ;
+		GUARD (t, r) ;
+		int rc = sf_command (t.sf, SFC_GET_INSTRUMENT, i, sizeof (*i)) ;
+		r.ret = rc ; r.err = sf_error (t.sf) ; if (rc) r.dh = fnv1a (i, sizeof (*i)) ;
+		after_call (t, r) ;
+		J v = rc ? instr_to_json (*i) : J::obj () ; v ["rc"] = rc ;
+		obs (t, "getinstr", v) ;
+		free (i) ;
+	}
+
+	void op_setchanmap (Task &t, const J &op, Rec &r)
+	{	if (!t.sf) { r.skipped = true ; return ; }
+		int ch = t.ch > 0 ? t.ch : 1 ;
+		int *m = (int *) malloc (sizeof (int) * ch) ;
+		J codes = J::arr () ;
+		const J &given = op.at ("codes") ;
+		for (int k = 0 ; k < ch ; k++)
+		{	m [k] = k < (int) given.size () ? (int) given [k].num () : (int) (1 + mix3 (key, op.geti ("stream", 1), k) % (SF_CHANNEL_MAP_MAX - 1)) ;
+			codes.push (m [k]) ;
+		}
+		r.api = "cmd:SET_CHANNEL_MAP_INFO" ;
+		os.begin_op (t.id, (int) t.pc, "sf_command", budget_for (t, 0)) ;
+		GUARD (t, r) ;
+		int rc = sf_command (t.sf, SFC_SET_CHANNEL_MAP_INFO, m, (int) (sizeof (int) * ch)) ;
+		r.ret = rc ; r.err = sf_error (t.sf) ; r.dh = fnv1a (m, sizeof (int) * ch) ;
+		after_call (t, r) ;
+		J v = J::obj () ; v ["rc"] = rc ; v ["codes"] = codes ; v ["late"] = t.wr > 0 ? 1 : 0 ;
+		obs (t, "setchanmap", v) ;
+		free (m) ;
+	}
+
+	void op_getchanmap (Task &t, const J &, Rec &r)
+	{	if (!t.sf) { r.skipped = true ; return ; }
+		int ch = t.ch > 0 ? t.ch : 1 ;
+		int *m = (int *) calloc (ch, sizeof (int)) ;
+		r.api = "cmd:GET_CHANNEL_MAP_INFO" ;
+		os.begin_op (t.id, (int) t.pc, "sf_command", budget_for (t, 0)) ;
+		GUARD (t, r) ;
+		int rc = sf_command (t.sf, SFC_GET_CHANNEL_MAP_INFO, m, (int) (sizeof (int) * ch)) ;
+		r.ret = rc ; r.err = sf_error (t.sf) ; if (rc) r.dh = fnv1a (m, sizeof (int) * ch) ;
+		after_call (t, r) ;
+		J v = J::obj () ; v ["rc"] = rc ; J codes = J::arr () ; for (int k = 0 ; rc && k < ch ; k++) codes.push (m [k]) ; v ["codes"] = codes ;
+		obs (t, "getchanmap", v) ;
+		free (m) ;
+	}
+
+	void op_setchunk (Task &t, const J &op, Rec &r)
+	{	if (!t.sf) { r.skipped = true ; return ; }
+		std::string id = op.gets ("id", "tSt0") ;
+		int64_t len = op.geti ("len", 4) ; if (len < 0) len = 0 ; if (len > (1 << 20)) len = 1 << 20 ;
+		SF_CHUNK_INFO ci ; memset (&ci, 0, sizeof (ci)) ;
+		snprintf (ci.id, sizeof (ci.id), "%s", id.c_str ()) ;
+		ci.id_size = (unsigned) std::min<size_t> (id.size (), sizeof (ci.id)) ;
+		uint8_t *data = (uint8_t *) malloc (len ? (size_t) len : 1) ;
+		for (int64_t k = 0 ; k < len ; k++) data [k] = (uint8_t) mix3 (key ^ 0xc4c4, (uint64_t) op.geti ("stream", 0), (uint64_t) k) ;
+		ci.datalen = (unsigned) len ; ci.data = data ;
+		r.api = "set_chunk" ;
+		os.begin_op (t.id, (int) t.pc, "sf_set_chunk", budget_for (t, len)) ;
+		GUARD (t, r) ;
+		int rc = sf_set_chunk (t.sf, &ci) ;
+		r.ret = rc ; r.err = sf_error (t.sf) ; r.dh = fnv1a (data, (size_t) len) ;
+		after_call (t, r) ;
+		J v = J::obj () ; v ["rc"] = rc ; v ["id"] = id ; v ["len"] = (long long) len ; v ["hash"] = (long long) (fnv1a (data, (size_t) len) >> 1) ; v ["late"] = t.wr > 0 ? 1 : 0 ;
+		obs (t, "setchunk", v) ;
+		free (data) ;
+	}
+
+	// iterator history: by id (or NULL id = full walk); per chunk size + data with a seeded datalen variant
+	void op_iterchunks (Task &t, const J &op, Rec &r)
+	{	if (!t.sf) { r.skipped = true ; return ; }
+		r.api = "iter_chunks" ;
+		SF_CHUNK_INFO q ; memset (&q, 0, sizeof (q)) ;
+		bool byid = op.has ("id") ;
+		if (byid) { std::string id = op.gets ("id") ; snprintf (q.id, sizeof (q.id), "%s", id.c_str ()) ; q.id_size = (unsigned) std::min<size_t> (id.size (), sizeof (q.id)) ; }
+		int variant = (int) op.geti ("variant", 2) ;		// 0: datalen 0, 1: size-1, 2: size, 3: size+7
+		os.begin_op (t.id, (int) t.pc, "sf_chunk_iter", budget_for (t, 1 << 16)) ;
+		GUARD (t, r) ;
+		SF_CHUNK_ITERATOR *it = sf_get_chunk_iterator (t.sf, byid ? &q : nullptr) ;
+		J list = J::arr () ;
+		uint64_t h = 0 ; int guard = 0 ;
+		while (it && guard ++ < 2000)
+		{	SF_CHUNK_INFO ci ; memset (&ci, 0, sizeof (ci)) ;
+			int rc = sf_get_chunk_size (it, &ci) ;
+			J e = J::obj () ; e ["rc_size"] = rc ; e ["id"] = std::string (ci.id, strnlen (ci.id, sizeof (ci.id))) ; e ["size"] = (long long) ci.datalen ;
+			if (rc == SF_ERR_NO_ERROR && ci.datalen < (1u << 24))
+			{	unsigned size = ci.datalen ;
+				unsigned dl = variant == 0 ? 0 : variant == 1 ? (size ? size - 1 : 0) : variant == 2 ? size : size + 7 ;
+				uint8_t *buf = (uint8_t *) malloc (dl ? dl : 1) ; memset (buf, 0xA5, dl ? dl : 1) ;
+				ci.datalen = dl ; ci.data = buf ;
+				int rc2 = sf_get_chunk_data (it, &ci) ;
+				e ["rc_data"] = rc2 ; e ["asked"] = (long long) dl ;
+				unsigned n = dl < size ? dl : size ;
+				e ["hash"] = (long long) (fnv1a (buf, n) >> 1) ; e ["n"] = (long long) n ;
+				if (dl > size) { bool untouched = true ; for (unsigned k = size ; k < dl ; k++) if (buf [k] != 0xA5) untouched = false ; e ["tail_untouched"] = untouched ; }
+				h = fnv1a (buf, n, h) ;
+				free (buf) ;
+			}
+			list.push (e) ;
+			it = sf_next_chunk_iterator (it) ;
+		}
+		if (guard >= 2000) viol (t, "chunk.iter_endless", "-", "chunk iteration did not end after 2000 steps") ;
+		r.ret = (int64_t) list.size () ; r.err = 0 ; r.dh = h ;
+		after_call (t, r) ;
+		J v = J::obj () ; v ["byid"] = byid ? op.gets ("id") : std::string ("") ; v ["full"] = byid ? 0 : 1 ; v ["list"] = list ; v ["variant"] = variant ;
+		obs (t, "iterchunks", v) ;
+	}
+
+	// generic query commands with exact-size buffers (used by C03 / C16 / C18 / C19 histories)
+	void op_query (Task &t, const J &op, Rec &r)
+	{	if (!t.sf) { r.skipped = true ; return ; }
+		std::string id = op.gets ("id") ;
+		int ch = t.ch > 0 ? t.ch : 1 ;
+		r.api = "query:" + id ;
+		os.begin_op (t.id, (int) t.pc, "sf_command", budget_for (t, 0) + (t.frames > 0 ? 64 * t.frames : 0)) ;
+		GUARD (t, r) ;
+		int rc = 0 ; uint64_t h = 0 ; J v = J::obj () ;
+		auto dbl1 = [&] (int cmd) { double *d = (double *) malloc (sizeof (double)) ; *d = -1 ; rc = sf_command (t.sf, cmd, d, sizeof (double)) ; h = fnv1a (d, 8) ; v ["val"] = *d ; free (d) ; } ;
+		auto dbln = [&] (int cmd) { double *d = (double *) calloc (ch, sizeof (double)) ; rc = sf_command (t.sf, cmd, d, (int) (sizeof (double) * ch)) ; h = fnv1a (d, 8 * ch) ; J a = J::arr () ; for (int k = 0 ; k < ch ; k++) a.push (d [k]) ; v ["vals"] = a ; free (d) ; } ;
+		if (id == "calc_max") dbl1 (SFC_CALC_SIGNAL_MAX) ;
+		else if (id == "calc_norm_max") dbl1 (SFC_CALC_NORM_SIGNAL_MAX) ;
+		else if (id == "calc_max_all") dbln (SFC_CALC_MAX_ALL_CHANNELS) ;
+		else if (id == "calc_norm_max_all") dbln (SFC_CALC_NORM_MAX_ALL_CHANNELS) ;
+		else if (id == "get_max") dbl1 (SFC_GET_SIGNAL_MAX) ;
+		else if (id == "get_max_all") dbln (SFC_GET_MAX_ALL_CHANNELS) ;
+		else if (id == "get_info") { SF_INFO *i = (SF_INFO *) calloc (1, sizeof (SF_INFO)) ; rc = sf_command (t.sf, SFC_GET_CURRENT_SF_INFO, i, sizeof (SF_INFO)) ; h = fnv1a (i, sizeof (SF_INFO)) ; v ["frames"] = (long long) i->frames ; free (i) ; }
+		else if (id == "get_log") { char *b = (char *) malloc (2048) ; rc = sf_command (t.sf, SFC_GET_LOG_INFO, b, 2048) ; h = 0 ; free (b) ; }
+		else if (id == "get_norm_double") rc = sf_command (t.sf, SFC_GET_NORM_DOUBLE, nullptr, 0) ;
+		else if (id == "get_norm_float") rc = sf_command (t.sf, SFC_GET_NORM_FLOAT, nullptr, 0) ;
+		else if (id == "get_clipping") rc = sf_command (t.sf, SFC_GET_CLIPPING, nullptr, 0) ;
+		else if (id == "get_embed") { SF_EMBED_FILE_INFO *e = (SF_EMBED_FILE_INFO *) calloc (1, sizeof (SF_EMBED_FILE_INFO)) ; rc = sf_command (t.sf, SFC_GET_EMBED_FILE_INFO, e, sizeof (*e)) ; h = fnv1a (e, sizeof (*e)) ; free (e) ; }
+		else if (id == "get_loop") { SF_LOOP_INFO *e = (SF_LOOP_INFO *) calloc (1, sizeof (SF_LOOP_INFO)) ; rc = sf_command (t.sf, SFC_GET_LOOP_INFO, e, sizeof (*e)) ; if (rc) h = fnv1a (e, sizeof (*e)) ; free (e) ; }
+		else if (id == "needs_endswap") rc = sf_command (t.sf, SFC_RAW_DATA_NEEDS_ENDSWAP, nullptr, 0) ;
+		else if (id == "get_ambisonic") rc = sf_command (t.sf, SFC_WAVEX_GET_AMBISONIC, nullptr, 0) ;
+		else if (id == "byterate") rc = sf_current_byterate (t.sf) ;
+		else if (id == "error") { rc = sf_error (t.sf) ; const char *s = sf_strerror (t.sf) ; h = s ? fnv1a (s, strlen (s)) : 0 ; }
+		else { os.end_op () ; r.skipped = true ; return ; }
+		r.ret = rc ; r.err = sf_error (t.sf) ; r.dh = h ;
+		after_call (t, r) ;
+		v ["rc"] = rc ; v ["id"] = id ; v ["rd"] = (long long) t.rd ;
+		obs (t, "query", v) ;
+		// queries are pure: the read position must be where the model left it
+		Digest d = digest (t) ;
+		if (d.ok && !t.stop && !t.faulted && opts.strict && t.pos_known && t.mode == SFM_READ && d.v [DG_READ_CURRENT] != t.rd)
+		{	char b [160] ; snprintf (b, sizeof (b), "read position %lld after %s, was %lld", (long long) d.v [DG_READ_CURRENT], id.c_str (), (long long) t.rd) ;
+			viol (t, "query.moved_position", id, b) ;
+		}
+	}
+
+	// storage corruption between a close and the next open
+	void op_corrupt (Task &t, const J &op, Rec &r)
+	{	r.api = "corrupt" ; r.skipped = true ;
+		SimFileP f = store_file (op.gets ("file", t.store.empty () ? "f" + std::to_string (t.id) + ".dat" : t.store)) ;
+		StoreModel &m = sm [f->name.substr (9)] ;
+		m.corrupted = true ;
+		std::vector<uint8_t> &d = f->data ;
+		const J &ed = op.at ("edits") ;
+		int64_t hdr = m.dataoffset > 0 ? m.dataoffset : 64 ;
+		for (size_t k = 0 ; k < ed.size () ; k++)
+		{	const J &e = ed [k] ;
+			std::string kind = e.gets ("kind") ;
+			int64_t sz = (int64_t) d.size () ;
+			auto where = [&] (int64_t raw, const std::string &region) -> int64_t
+			{	if (sz <= 0) return 0 ;
+				if (raw < 0) raw = -raw ;
+				if (region == "head") return raw % std::min<int64_t> (sz, hdr + 64) ;
+				if (region == "tail") return sz - 1 - raw % std::min<int64_t> (sz, 64) ;
+				return raw % sz ;
+			} ;
+			int64_t off = where (e.geti ("off", 0), e.gets ("region", "head")) ;
+			if (kind == "flip") { if (sz) d [off] ^= (uint8_t) (1u << (e.geti ("bit", 0) & 7)) ; }
+			else if (kind == "set") { if (sz) d [off] = (uint8_t) e.geti ("val", 0) ; }
+			else if (kind == "field")
+			{	int w = (int) e.geti ("width", 4) ; int64_t val = e.geti ("val", 0) ; bool be = e.geti ("be", 0) != 0 ;
+				for (int b = 0 ; b < w && off + b < sz ; b++) d [off + b] = (uint8_t) (val >> (8 * (be ? w - 1 - b : b))) ;
+			}
+			else if (kind == "truncate") { if (sz) d.resize ((size_t) where (e.geti ("len", 0), e.gets ("region", "any"))) ; }
+			else if (kind == "zero") { int64_t n = e.geti ("len", 512) ; for (int64_t b = 0 ; b < n && off + b < sz ; b++) d [off + b] = 0 ; }
+			else if (kind == "dup")
+			{	int64_t to = where (e.geti ("to", 0), "any"), n = e.geti ("len", 512) ;
+				std::vector<uint8_t> tmp ; for (int64_t b = 0 ; b < n && off + b < sz ; b++) tmp.push_back (d [off + b]) ;
+				for (size_t b = 0 ; b < tmp.size () && to + (int64_t) b < sz ; b++) d [to + b] = tmp [b] ;
+			}
+			else if (kind == "append") { int64_t n = e.geti ("len", 16) ; for (int64_t b = 0 ; b < n ; b++) d.push_back ((uint8_t) mix3 (key, 0xaaa, (uint64_t) (b + k))) ; }
+			else if (kind == "random_tail") { int64_t keep = std::min<int64_t> (sz, e.geti ("keep", 12)) ; for (int64_t b = keep ; b < sz ; b++) d [b] = (uint8_t) mix3 (key, 0xbbb + k, (uint64_t) b) ; }
+			else if (kind == "random_all") { int64_t n = e.geti ("len", 256) ; d.resize ((size_t) n) ; for (int64_t b = 0 ; b < n ; b++) d [b] = (uint8_t) mix3 (key, 0xccc + k, (uint64_t) b) ; }
+			probe ((std::string ("corrupt:") + kind).c_str ()) ;
+		}
+	}
+
+	// crash image: what the store holds now is what survives; a recovery reader parses the copy (C11)
+	struct CrashImg { int task ; size_t op ; int64_t n ; int64_t F ; int T ; std::vector<uint64_t> data ; bool opened ; } ;
+	std::vector<CrashImg> crashes ;
+
+	void op_crash (Task &t, const J &op, Rec &r)
+	{	r.api = "crash" ; r.skipped = true ;
+		if (!t.sf || t.mode == SFM_READ || t.stop) return ;
+		SimFileP src = store_file (t.store) ;
+		SimFileP img = std::make_shared<SimFile> () ; img->data = src->data ; img->name = "crashimg" ;
+		int T = stype_from (op.gets ("T", plan.at ("cfg").gets ("T", "short"))) ;
+		SF_INFO info ; memset (&info, 0, sizeof (info)) ;
+		bool save_trace = os.trace_io_enabled ; int save_task = os.cur_task ;
+		os.trace_io_enabled = false ; os.cur_task = -1 ; os.in_lib = true ; os.op_budget = 0 ;
+		SimVio v ; v.f = img ; v.off = 0 ;
+		SF_VIRTUAL_IO vio = simos_vio () ;
+		SNDFILE *h = sf_open_virtual (&vio, SFM_READ, &info, &v) ;
+		CrashImg ci ; ci.task = t.id ; ci.op = t.pc ; ci.n = t.frames ; ci.F = -1 ; ci.T = T ; ci.opened = h != nullptr ;
+		int64_t delivered = -1 ;
+		std::string openerr = h ? "" : sf_strerror (nullptr) ;
+		if (h)
+		{	ci.F = info.frames ;
+			int64_t items = info.frames * info.channels ;
+			if (items >= 0 && items < (1 << 26) && info.channels > 0)
+			{	size_t extra = (size_t) info.channels * 4 ;
+				void *buf = malloc (((size_t) items + extra) * stype_size (T) + 8) ;
+				sf_count_t got = 0 ;
+				switch (T)
+				{	case T_SHORT : got = sf_readf_short (h, (short *) buf, info.frames + 4) ; break ;
+					case T_INT : got = sf_readf_int (h, (int *) buf, info.frames + 4) ; break ;
+					case T_FLOAT : got = sf_readf_float (h, (float *) buf, info.frames + 4) ; break ;
+					default : got = sf_readf_double (h, (double *) buf, info.frames + 4) ; break ;
+				}
+				delivered = got ;
+				int64_t n = std::min<int64_t> (got, info.frames) * info.channels ;
+				ci.data.resize ((size_t) (n > 0 ? n : 0)) ;
+				for (int64_t k = 0 ; k < n ; k++) ci.data [k] = item_bits (buf, T, k) ;
+				free (buf) ;
+			}
+			sf_close (h) ;
+		}
+		os.in_lib = false ; os.trace_io_enabled = save_trace ; os.cur_task = save_task ;
+		probe ("crash_images") ;
+		char b [256] ;
+		const Fmt &f = *t.fmt ;
+		int B = block_frames (f, t.ch, t.rate) ;
+		if (ci.n % B) probe ("crash_image_mid_block") ;
+		if (!h) { viol (t, "crash.open", "-", "recovery reader cannot open the image taken after the header update: " + openerr) ; return ; }
+		if (info.channels != t.ch || (info.format & SF_FORMAT_SUBMASK) != (f.format & SF_FORMAT_SUBMASK) || (info.format & SF_FORMAT_TYPEMASK) != (f.format & SF_FORMAT_TYPEMASK))
+		{	snprintf (b, sizeof (b), "recovered ch=%d format=0x%x, writer ch=%d format=0x%x", info.channels, info.format, t.ch, f.format) ; viol (t, "crash.params", "-", b) ; return ; }
+		int64_t rm = rate_model (f, t.rate, t.ch) ;
+		if (rm >= 0 && info.samplerate != rm) { snprintf (b, sizeof (b), "recovered rate %d, model %lld", info.samplerate, (long long) rm) ; viol (t, "crash.params", "rate", b) ; return ; }
+		int64_t n = ci.n, lo = (n / B) * B ;
+		bool okF = B == 1 ? (ci.F == n || (ci.F == n + 1 && pad_frame_possible (f, t.ch, n))) : (ci.F >= lo && ci.F <= n) ;
+		if (!okF)
+		{	const char *disc = ci.F < lo ? "F<floor" : ci.F > n ? "F>n" : "other" ;
+			snprintf (b, sizeof (b), "crash image after %lld frames reports %lld frames (block %d)", (long long) n, (long long) ci.F, B) ; viol (t, "crash.frames", disc, b) ; return ; }
+		if (delivered != ci.F) { snprintf (b, sizeof (b), "crash image reports %lld frames, reading delivers %lld", (long long) ci.F, (long long) delivered) ; viol (t, "crash.eof", delivered < ci.F ? "fewer" : "more", b) ; return ; }
+		StoreModel &m = sm [t.store] ;
+		if (m.model_on && m.T == T)
+		{	int64_t lim = std::min<int64_t> ({ (int64_t) ci.data.size (), (int64_t) m.val.size (), n * t.ch }) ;
+			for (int64_t k = 0 ; k < lim ; k++)
+				if (m.known [k] && ci.data [k] != m.val [k])
+				{	snprintf (b, sizeof (b), "crash image after %lld frames: item %lld reads 0x%llx, written 0x%llx", (long long) n, (long long) k, (unsigned long long) ci.data [k], (unsigned long long) m.val [k]) ;
+					viol (t, "crash.prefix", "model", b) ; return ;
+				}
+			probe ("crash_prefix_items_compared", (uint64_t) (lim > 0 ? lim : 0)) ;
+		}
+		crashes.push_back (std::move (ci)) ;
+	}
+
+	// at the end: every crash image's decode must be a prefix of the finished file's decode (lossy encodings)
+	void finish_crashes ()
+	{	for (auto &ci : crashes)
+		{	Task &t = tasks [ci.task] ;
+			if (t.stop || t.faulted) continue ;
+			// decode the finished file
+			t.mode = SFM_READ ;
+			const std::vector<uint64_t> *S = nullptr ;
+			{	Task tmp = t ; tmp.ref.clear () ; S = ensure_ref (tmp, ci.T) ; final_decodes [ci.task * 8 + ci.T] = *S ; }
+			const std::vector<uint64_t> &fin = final_decodes [ci.task * 8 + ci.T] ;
+			int64_t lim = std::min<int64_t> ({ (int64_t) ci.data.size (), (int64_t) fin.size (), ci.n * t.ch }) ;
+			for (int64_t k = 0 ; k < lim ; k++)
+				if (ci.data [k] != fin [k])
+				{	char b [200] ; snprintf (b, sizeof (b), "crash image after %lld frames: item %lld decodes to 0x%llx, finished file 0x%llx", (long long) ci.n, (long long) k, (unsigned long long) ci.data [k], (unsigned long long) fin [k]) ;
+					size_t save = t.pc ; t.pc = ci.op ; viol (t, "crash.prefix", "final", b) ; t.pc = save ; break ;
+				}
+		}
+	}
+	std::map<int, std::vector<uint64_t>> final_decodes ;
+
 	bool step (Task &t) ;
 	void run () ;
 } ;
@@ -770,6 +1356,23 @@ bool Exec::step (Task &t)
 	else if (kind == "seek") op_seek (t, op, r) ;
 	else if (kind == "cmd") op_cmd (t, op, r) ;
 	else if (kind == "clock") op_clock (t, op, r) ;
+	else if (kind == "setstr") op_setstr (t, op, r) ;
+	else if (kind == "getstr") op_getstr (t, op, r) ;
+	else if (kind == "setbext") op_setbext (t, op, r) ;
+	else if (kind == "getbext") op_getbext (t, op, r) ;
+	else if (kind == "setcart") op_setcart (t, op, r) ;
+	else if (kind == "getcart") op_getcart (t, op, r) ;
+	else if (kind == "setcues") op_setcues (t, op, r) ;
+	else if (kind == "getcues") op_getcues (t, op, r) ;
+	else if (kind == "setinstr") op_setinstr (t, op, r) ;
+	else if (kind == "getinstr") op_getinstr (t, op, r) ;
+	else if (kind == "setchanmap") op_setchanmap (t, op, r) ;
+	else if (kind == "getchanmap") op_getchanmap (t, op, r) ;
+	else if (kind == "setchunk") op_setchunk (t, op, r) ;
+	else if (kind == "iterchunks") op_iterchunks (t, op, r) ;
+	else if (kind == "query") op_query (t, op, r) ;
+	else if (kind == "corrupt") op_corrupt (t, op, r) ;
+	else if (kind == "crash") op_crash (t, op, r) ;
 	else r.skipped = true ;
 	res.transcript [t.id].push_back (r) ;
 	t.pc ++ ;
@@ -782,6 +1385,7 @@ void Exec::run ()
 	const J &cfg = plan.at ("cfg") ;
 	os.clock_off = cfg.geti ("clock", 0) ;
 	os.trace_io_enabled = opts.io_trace ;
+	os.record_io = opts.record_io ;
 	const J &io = plan.at ("io") ;
 	if (io.is_obj ())
 	{	const J &c = io.at ("chunks") ;
@@ -813,8 +1417,9 @@ void Exec::run ()
 	}
 	for (auto &t : tasks)
 		if (t.sf) { Rec r ; do_close (t, r) ; res.transcript [t.id].push_back (r) ; }
-	// resource audit (C16 clauses) once every handle has ended
-	os.leak_audit (res.audit) ;
+	if (!crashes.empty ()) finish_crashes () ;
+	// resource audit (C16 clauses) once every handle has ended (not after an abandoned call: its memory is still live)
+	if (!res.budget_hit) os.leak_audit (res.audit) ;
 	for (auto &a : res.audit)
 	{	Viol v ; v.clause = a.compare (0, 5, "heap:") == 0 ? "audit.heap" : a.compare (0, 3, "fd:") == 0 ? "audit.fd" : a.compare (0, 4, "tmp:") == 0 ? "audit.tmp" : "audit.other" ;
 		v.disc = "-" ; v.detail = a ; v.fmt = "-" ; v.fault = "none" ;
@@ -830,6 +1435,9 @@ void Exec::run ()
 		for (auto &kv : os.ns) res.stores [kv.first] = kv.second->data ;
 	res.trace = os.trace ;
 	res.io = os.st ;
+	res.io_log = os.io_log ;
+	if (os.have_fault_snapshot) { res.have_fault_snapshot = true ; res.fault_snapshot = os.fault_snapshot ; }
+	for (auto &kv : sm) res.dataoffsets [kv.first] = kv.second.dataoffset ;
 	res.lib_allocs = os.lib_allocs ;
 	res.clock_span = os.clock_off ;
 	for (int k = 0 ; k < F_KIND_COUNT ; k++) if (os.st.faults_fired [k]) res.probes [std::string ("fault_fired:") + fault_name (k)] += os.st.faults_fired [k] ;
